@@ -467,10 +467,13 @@ class Discovery (EventMixin):
     return EventHalt # Probably nobody else needs this event
 
   def _delete_links (self, links):
-    for link in links:
-      self.raiseEventNoErrors(LinkEvent, False, link)
+    # Take them all out of the adjacency before telling anyone, so that
+    # listeners (e.g., spanning_tree) which look at the adjacency when they
+    # get the event see none of the dead links.
     for link in links:
       self.adjacency.pop(link, None)
+    for link in links:
+      self.raiseEventNoErrors(LinkEvent, False, link)
 
   def is_edge_port (self, dpid, port):
     """
